@@ -8,6 +8,7 @@
 import AHP.Lemmas.BuilderTop
 import AHP.Lemmas.WrapStr
 import AHP.Lemmas.WrapLexFeed
+import AHP.Lemmas.StripIERender
 namespace AHP.C02
 open AHP AHP.Spec
 
@@ -481,6 +482,246 @@ example : feedText (renderToks strayWrapperEnd)
   rw [feedText_renderToks _ strayWrapperEnd_ok, strayWrapperEnd_raises]
   intro h
   cases h
+
+/-! #### C02g — `stripIEConditionals`: what `feed` does to the text before the tokenizer sees it
+
+  Model: AHP/Model/StripIE.lean (`stripIE` = `IE_CONDITIONAL_PATTERN.findall`, `replace` of every match in order,
+  the `END_HTML` / `START_HTML` test with `addStartTag(contents, '<html>')`); `parseText = feedText ∘ stripIE`
+  (Lemmas/StripIERender.lean) is `Parser.feed`, i.e. what `parseStr` / `parseFile` run after `reset()`.
+  `hasIEMarker s` (Lemmas/StripIE.lean) decides whether `<!--` ws* `[` ws* `if` (ws = blank, tab, CR, LF) — the
+  part of the pattern in front of `.*-->` — stands somewhere in `s`; `IsIEOpener op` is the explicit reading of
+  such an opener. -/
+
+/-- **C02g (identity).** A text in which `<!--` ws* `[` ws* `if` does not occur is returned unchanged. -/
+theorem stripIE_id (s : Str) (h : hasIEMarker s = false) : stripIE s = s :=
+  stripIE_of_no_marker s h
+
+/-- the decidable `hasIEMarker` and the explicit reading agree (one direction: an occurrence of an explicit
+    opener is found) -/
+theorem hasIEMarker_of_opener (a op b : Str) (hop : IsIEOpener op) : hasIEMarker (a ++ op ++ b) = true := by
+  rw [List.append_assoc]
+  induction a with
+  | nil =>
+    obtain ⟨r, hr⟩ := isIEOpener_head op hop
+    have := matchItems_opener op b hop
+    rw [List.nil_append]
+    rw [hr] at this ⊢
+    rw [List.cons_append] at this ⊢
+    rw [hasIEMarker_cons, this]
+    rfl
+  | cons c a ih => rw [List.cons_append, hasIEMarker_cons, ih, Bool.or_true]
+
+/-- so a text without the marker contains no explicit opener anywhere -/
+theorem no_opener_of_no_marker (s : Str) (h : hasIEMarker s = false) :
+    ¬ ∃ a op b, IsIEOpener op ∧ s = a ++ op ++ b := by
+  rintro ⟨a, op, b, hop, rfl⟩
+  rw [hasIEMarker_of_opener a op b hop] at h
+  exact absurd h (by simp)
+
+/-- **C02g (serialiser output, tight form).** The rendering of a token list in the serialiser's image contains
+    the marker exactly when the rendering of one of its tokens does: no opener reaches across a token boundary. -/
+theorem renderToks_marker_iff (ts : List Token) (h : ListOK ts) :
+    hasIEMarker (renderToks ts) = ts.any (fun t => hasIEMarker (renderTok t)) :=
+  hasIEMarker_renderToks ts h
+
+/-- **C02g (serialiser output).** The condition on tokens (`TokNoIE`): no comment's body starts with
+    ws* `[` ws* `if`; no attribute value, declaration body or processing instruction contains the marker
+    (tags, end tags, text and references never do).  Then the rendering has no marker. -/
+theorem renderToks_no_marker (ts : List Token) (h : ListOK ts) (hm : ∀ t ∈ ts, TokNoIE t) :
+    hasIEMarker (renderToks ts) = false :=
+  renderToks_no_marker_of ts h hm
+
+/-- a comment token is the only place where the condition speaks about the *start* of a body: its rendering
+    has the marker exactly when the body starts with ws* `[` ws* `if` -/
+theorem comment_marker_iff (c : Str) (h : CommentOK c) :
+    hasIEMarker (renderTok (.comment c)) = condStart c :=
+  hasIEMarker_comment c h
+
+/-- on such renderings `feed` with the stripping step is `feed` without it -/
+theorem parseText_eq_feedText (ts : List Token) (h : ListOK ts) (hm : ∀ t ∈ ts, TokNoIE t) :
+    parseText (renderToks ts) = feedText (renderToks ts) :=
+  parseText_renderToks ts h hm
+
+/-- **C02a/f/g end to end, on text, with the stripping step.** For every token list in the serialiser's image
+    that does not mention the wrapper name and meets the token-level condition, `feed` (strip IE conditionals;
+    lex; build; on MultipleRootNodeException insert the wrapper into the text, lex and build again) gives the
+    document of the recursive-descent specification. -/
+theorem parseText_eq_spec (ts : List Token) (h : ListOK ts) (hw : NoWrapper ts) (hm : ∀ t ∈ ts, TokNoIE t) :
+    parseText (renderToks ts) = some (.doc (Spec.build ts).1 (Spec.build ts).2) := by
+  rw [parseText_eq_feedText ts h hm, feedText_eq_spec ts h hw]
+
+/-- **C02g (one conditional on one line).** `pre ++ cond ++ post` with `cond` = an opener, a body that stays on
+    the line, and `-->`; no marker in `pre` or in `post`; no further `-->` on the rest of `cond`'s line (so the
+    greedy `.*` ends at `cond`'s own arrow).  `findall` finds exactly `cond`, `replace` removes exactly that
+    occurrence, and the result is `pre ++ post` up to the html-tag rule. -/
+theorem stripIE_removes (pre op body post : Str) (hop : IsIEOpener op) (hbody : '\n' ∉ body)
+    (hpre : hasIEMarker pre = false) (hpost : hasIEMarker post = false)
+    (hline : hasArrow (post.takeWhile (· ≠ '\n')) = false) :
+    stripIE (pre ++ (op ++ body ++ arrow) ++ post) = addHtmlIfMissing (pre ++ post) := by
+  unfold stripIE
+  rw [ieFindAll_single pre op body post hop hbody hpre hpost hline]
+  simp only [List.isEmpty_cons, Bool.false_eq_true, if_false, List.foldl_cons, List.foldl_nil]
+  rw [removeAll_single pre op body post hop hpre hpost]
+
+/-- the html-tag rule spelled out: an `</html>` end tag (any case, white space allowed inside) without an
+    `<html>` start tag gets `<html>` inserted by `addStartTag` — directly after a leading doctype as
+    `DOCTYPE_MATCH` reads it, else in front; otherwise nothing is added -/
+theorem addHtmlIfMissing_cases (s : Str) :
+    (occurs endHtmlPat s = true ∧ occurs startHtmlPat s = false ∧
+      ((∃ p rest, DoctypeSplit s p rest ∧ addHtmlIfMissing s = p ++ htmlStartTag ++ rest) ∨
+       (startsWithDoctype s = false ∧ addHtmlIfMissing s = htmlStartTag ++ s))) ∨
+    ((occurs endHtmlPat s = false ∨ occurs startHtmlPat s = true) ∧ addHtmlIfMissing s = s) := by
+  unfold addHtmlIfMissing
+  cases he : occurs endHtmlPat s with
+  | false => right; exact ⟨Or.inl rfl, by simp⟩
+  | true =>
+    cases hs : occurs startHtmlPat s with
+    | true => right; exact ⟨Or.inr rfl, by simp⟩
+    | false =>
+      left
+      refine ⟨rfl, rfl, ?_⟩
+      simp only [Bool.not_false, Bool.and_self, if_true]
+      cases hd : startsWithDoctype s with
+      | true =>
+        left
+        obtain ⟨p, rest, hsp⟩ := (startsWithDoctype_iff s).mp hd
+        refine ⟨p, rest, hsp, ?_⟩
+        unfold addStartTagStr
+        rw [doctypePrefix_of_split s p rest hsp]
+      | false =>
+        right
+        refine ⟨rfl, ?_⟩
+        unfold addStartTagStr
+        rw [doctypePrefix_none_of_not s hd]
+
+/-- the usual case: the document keeps an `<html>` start tag (or has no `</html>`): the conditional is cut out -/
+theorem stripIE_removes_plain (pre op body post : Str) (hop : IsIEOpener op) (hbody : '\n' ∉ body)
+    (hpre : hasIEMarker pre = false) (hpost : hasIEMarker post = false)
+    (hline : hasArrow (post.takeWhile (· ≠ '\n')) = false)
+    (hhtml : occurs endHtmlPat (pre ++ post) = false ∨ occurs startHtmlPat (pre ++ post) = true) :
+    stripIE (pre ++ (op ++ body ++ arrow) ++ post) = pre ++ post := by
+  rw [stripIE_removes pre op body post hop hbody hpre hpost hline]
+  unfold addHtmlIfMissing
+  rcases hhtml with h | h <;> simp [h]
+
+/-! non-vacuity and the conditions at work -/
+example : IsIEOpener "<!--[if".toList := ⟨[], [], by simp, by simp, rfl⟩
+example : IsIEOpener "<!-- \n[\tif".toList :=
+  ⟨" \n".toList, "\t".toList, by decide, by decide, rfl⟩
+
+example : hasIEMarker "<p>x</p><!-- [ if IE]>".toList = true := by decide
+example : hasIEMarker "<p>x</p><!--[IF IE]><!-- if --><!-[if]>".toList = false := by decide
+
+/-- the classic use: the conditional carries the only `<html>` start tag; it is cut out and `<html>` is put
+    back after the doctype -/
+example : stripIE "<!DOCTYPE html><!--[if lt IE 9]><html class=\"ie\"><![endif]-->\n<p>x</p></html>".toList
+    = "<!DOCTYPE html><html>\n<p>x</p></html>".toList := by decide
+
+example : stripIE "<!DOCTYPE html><!--[if lt IE 9]><html class=\"ie\"><![endif]-->\n<p>x</p></html>".toList
+    = addHtmlIfMissing ("<!DOCTYPE html>".toList ++ "\n<p>x</p></html>".toList) :=
+  stripIE_removes "<!DOCTYPE html>".toList "<!--[if".toList " lt IE 9]><html class=\"ie\"><![endif]".toList
+    "\n<p>x</p></html>".toList ⟨[], [], by simp, by simp, rfl⟩ (by decide) (by decide) (by decide) (by decide)
+
+/-- `.*` is greedy: a later `-->` on the same line belongs to the match (`hline` is needed) -/
+example : stripIE "a<!--[if IE]>b<![endif]--> c <!-- d --> e\nf".toList = "a e\nf".toList := by decide
+/-- `.` stops at a line break: a conditional whose `-->` is on another line is not touched (`hbody` is needed) -/
+example : stripIE "a<!--[if IE]>\nb<![endif]-->c".toList = "a<!--[if IE]>\nb<![endif]-->c".toList := by decide
+/-- `replace` removes *every* occurrence of a match, and matches are removed in order: here the first match
+    also occurs at the end of the second, which is then no longer found (`hpost` is needed) -/
+example : stripIE "<!--[if a]-->\n<!--[if b]--><!--[if a]-->".toList = "\n<!--[if b]-->".toList := by decide
+/-- removing a match can leave a new conditional behind: `stripIE` is applied once, not to a fixed point -/
+example : stripIE "<!-<!--[if x]-->-\n[if y]-->".toList = "<!--\n[if y]-->".toList := by decide
+example : stripIE (stripIE "<!-<!--[if x]-->-\n[if y]-->".toList) = [] := by decide
+
+/-- a token list with comments, a doctype and attribute values that meets the token-level condition -/
+def sampleDocIE : List Token :=
+  [.decl "DOCTYPE html".toList, .comment "x [if] is not at the start ".toList,
+   .start "a".toList [("href".toList, some "x<!-- [y".toList)], .data "[if IE]".toList, .end_ "a".toList,
+   .comment "if".toList, .start "br".toList []]
+
+theorem sampleDocIE_ok : ListOK sampleDocIE := by
+  apply listOK_of_noAdjData
+  · intro t ht
+    simp [sampleDocIE] at ht
+    rcases ht with rfl | rfl | rfl | rfl | rfl | rfl | rfl
+    · exact ⟨by decide, by decide⟩
+    · simp [TokOK, CommentOK]
+    · refine ⟨tagOK_a, by decide, ?_⟩
+      intro x hx
+      simp at hx
+      subst hx
+      exact ⟨⟨by decide, by decide, by decide⟩, by simp [ValueOK], by decide⟩
+    · exact Or.inr (Or.inr ⟨by decide, by decide⟩)
+    · exact tagOK_a
+    · simp [TokOK, CommentOK]
+    · exact ⟨tagOK_br, by decide, fun x hx => by simp at hx⟩
+  · intro t ht
+    simp [sampleDocIE] at ht
+    rcases ht with rfl | rfl | rfl | rfl | rfl | rfl | rfl <;> first | trivial | exact ⟨by decide, by decide⟩
+  · simp [sampleDocIE, NoAdjData, isData]
+
+theorem sampleDocIE_noIE : ∀ t ∈ sampleDocIE, TokNoIE t := by
+  intro t ht
+  simp [sampleDocIE] at ht
+  rcases ht with rfl | rfl | rfl | rfl | rfl | rfl | rfl
+  · show hasIEMarker _ = false; decide
+  · show condStart _ = false; decide
+  · intro x hx v hv
+    simp at hx
+    subst hx
+    simp at hv
+    subst hv
+    decide
+  · trivial
+  · trivial
+  · show condStart _ = false; decide
+  · intro x hx; simp at hx
+
+example : parseText (renderToks sampleDocIE) = some (.doc (Spec.build sampleDocIE).1 (Spec.build sampleDocIE).2) :=
+  parseText_eq_spec sampleDocIE sampleDocIE_ok (by
+    intro t ht
+    simp [sampleDocIE] at ht
+    rcases ht with rfl | rfl | rfl | rfl | rfl | rfl | rfl <;> decide) sampleDocIE_noIE
+
+/-- the token-level condition is needed: a comment token whose body starts with `[if` is in the serialiser's
+    image, but `feed` strips it from the text — the element it stood in comes out empty -/
+def condComment : List Token :=
+  [.start "a".toList [], .comment "[if IE]><b>x</b><![endif]".toList, .end_ "a".toList]
+
+theorem condComment_ok : ListOK condComment := by
+  apply listOK_of_noAdjData
+  · intro t ht
+    simp [condComment] at ht
+    rcases ht with rfl | rfl | rfl
+    · exact ⟨tagOK_a, by decide, fun x hx => by simp at hx⟩
+    · simp [TokOK, CommentOK]
+    · exact tagOK_a
+  · intro t ht
+    simp [condComment] at ht
+    rcases ht with rfl | rfl | rfl <;> trivial
+  · simp [condComment, NoAdjData, isData]
+
+example : stripIE (renderToks condComment) = "<a ></a>".toList := by decide
+
+/-- number of children of the root element a parse gave -/
+def rootKids : FeedResult → Option Nat
+  | .doc ⟨_, some (.elem _ _ _ kids)⟩ _ => some kids.length
+  | _ => none
+
+def emptyA : List Token := [.start "a".toList [], .end_ "a".toList]
+
+theorem emptyA_ok : ListOK emptyA :=
+  ⟨⟨tagOK_a, by decide, fun x hx => by simp at hx⟩, trivial, tagOK_a, trivial, trivial⟩
+
+theorem condComment_stripped : stripIE (renderToks condComment) = renderToks emptyA := by decide
+
+example : parseText (renderToks condComment) ≠ feedText (renderToks condComment) := by
+  unfold parseText
+  rw [condComment_stripped, feedText_renderToks _ condComment_ok, feedText_renderToks _ emptyA_ok]
+  intro h
+  have h2 := congrArg (Option.map rootKids) h
+  revert h2
+  decide
 
 /-! #### Non-vacuity -/
 example : NoWrapper [.start "a".toList [], .data "x".toList, .end_ "b".toList, .start "br".toList []] := by
